@@ -699,3 +699,5 @@ OUTSIDE = [
 ]
 TRUSTED = ['symx.mathshim: sqrt witness and unit-circle angle algebra standing in for libm inside desper.math']
 
+
+TECHNIQUE = 'SMT validity (z3 nlsat over NRA; unsat answers re-checked with cvc5) of textbook identities obtained by symbolic execution of the real desper.math on real-valued proxies'
